@@ -128,20 +128,48 @@ def rule_recurse(ctx, R):
 
 
 def rule_hang(ctx, R):
-    """scripts run under an execution bound"""
+    """scripts run under an execution bound: before the chunk is run, eval installs an
+    instruction hook (or interrupt) whose callback can return Err (that is what stops the VM),
+    decided by a clock or counter comparison; a memory limit bounds allocation but not time."""
     ev = ctx.prog.need("storage::lua_engine::LuaEngine::eval")
-    reach = ctx.cg.reach([ev.fn])
-    bound = False
-    for f in reach:
-        fb = ctx.prog.bodies.get(f)
-        if fb is None:
-            continue
-        for i, t in fb.calls():
-            if re.search(r"mlua::.*::(set_hook|set_interrupt|set_memory_limit|set_global_hook)(::<.*>)?$", t["f"] or ""):
-                bound = True
-    R.inst(ev.fn, "script-bound", {"installs_hook_or_limit": bound})
-    if not bound:
-        R.finding(ev.fn, "script-unbounded", "scripts run with no instruction hook, interrupt or memory limit: `EVAL \"while true do end\" 0` occupies the single command thread forever (no client is answered any more)", ev.loc())
+    runs = [i for i, t in ev.calls() if re.search(r"^mlua::Chunk::<'_>::(eval|exec|call)(::<.*>)?$|^mlua::Chunk::(eval|exec|call)(::<.*>)?$|^mlua::Function::call(::<.*>)?$", t["f"] or "")]
+    R.floor("script_run_sites", len(runs))
+    hooks = []
+    # hook installed in eval itself or in a function eval calls before the run (context set-up)
+    cand = [(ev, i, t) for i, t in ev.calls()]
+    for i, t in ev.calls():
+        c = callee(t)
+        if c in ctx.prog.bodies and c.startswith("storage::lua_engine::"):
+            cb = ctx.prog.bodies[c]
+            cand += [(cb, j, tj) for j, tj in cb.calls() if all(cfg.dominates(ev, i, r) for r in runs)]
+    mem = False
+    for fb, i, t in cand:
+        f = t["f"] or ""
+        if re.search(r"mlua::.*::set_memory_limit$", f):
+            mem = True
+        if re.search(r"mlua::.*::(set_hook|set_interrupt|set_global_hook)(::<.*>)?$", f):
+            can_abort = False; timed = False
+            for cl in t.get("clos") or []:
+                cb = ctx.prog.bodies.get(cl)
+                if cb is None:
+                    continue
+                for bb in cb.bbs:
+                    for st in bb["s"]:
+                        if st["k"] == "=" and st["r"]["k"] == "agg" and st["r"]["a"].endswith("Result::Err"):
+                            can_abort = True
+                for j, tj in cb.calls():
+                    if re.search(r"Instant::now$|Instant::elapsed$|PartialOrd.*>::(ge|gt|lt|le)$|fetch_add$", tj["f"] or ""):
+                        timed = True
+                for bb in cb.bbs:
+                    for st in bb["s"]:
+                        if st["k"] == "=" and st["r"]["k"] == "bin" and st["r"]["op"] in ("Ge", "Gt", "Lt", "Le"):
+                            timed = True
+            dom = fb is not ev or all(cfg.dominates(ev, i, r) for r in runs)
+            hooks.append({"in": fb.fn.split("::")[-1], "callback_can_abort": can_abort, "decides_by_clock_or_counter": timed, "before_every_run": dom})
+    ok = any(h["callback_can_abort"] and h["decides_by_clock_or_counter"] and h["before_every_run"] for h in hooks)
+    R.inst(ev.fn, "script-bound", {"run_sites": len(runs), "hooks": hooks, "memory_limit": mem})
+    if not ok:
+        R.finding(ev.fn, "script-unbounded", "scripts run with no instruction hook / interrupt that can stop them: `EVAL \"while true do end\" 0` occupies the single command thread forever (no client is answered any more)", ev.loc())
 
 
 # ---------------------------------------------------------------------------------------
